@@ -1,4 +1,7 @@
 import TetlProofs.C15.Lemmas
+import TetlProofs.C15.RatioAsm
+import TetlProofs.C15.RatioLess
+import TetlProofs.C15.RatioRat
 namespace Tetl.C15.Props
 open Tetl Tetl.C15 CType
 
@@ -361,6 +364,45 @@ theorem decay_eq (t : CType) (h : wf t = true) : M.decay t = Spec.decay t := by
   | mptr v q => cases v <;> rfl
   | _ => rfl
 
+/-! ### sign modifications and underlying type ([meta.trans.sign], [meta.trans.other]) -/
+
+/-- `make_signed<T>` as tetl computes it (explicit specialisations for the standard integer types, `make_signed_by_size`
+    for enumerations and `wchar_t`, `char8_t`, `char16_t`, `char32_t`, cv copied by `make_signed_copy_cv`) names the type
+    [meta.trans.sign] prescribes - the corresponding signed integer type, for enumerations and character types the signed
+    integer type of smallest rank with the same size - and is ill-formed for exactly the same types (`okOf` erases the
+    reason), for every type of the grammar -/
+theorem makeSigned_eq (t : CType) : okOf (M.makeSigned t) = okOf (Spec.makeSigned t) := by
+  by_cases h : ∃ b q, t = base b q
+  · obtain ⟨b, q, rfl⟩ := h; exact makeSigned_base b q
+  · have h' : ∀ b q, t ≠ base b q := fun b q e => h ⟨b, q, e⟩
+    unfold M.makeSigned Spec.makeSigned
+    rw [M_makeSignLike_nonbase _ _ t h', S_makeSignLike_nonbase _ _ t h']
+
+theorem makeUnsigned_eq (t : CType) : okOf (M.makeUnsigned t) = okOf (Spec.makeUnsigned t) := by
+  by_cases h : ∃ b q, t = base b q
+  · obtain ⟨b, q, rfl⟩ := h; exact makeUnsigned_base b q
+  · have h' : ∀ b q, t ≠ base b q := fun b q e => h ⟨b, q, e⟩
+    unfold M.makeUnsigned Spec.makeUnsigned
+    rw [M_makeSignLike_nonbase _ _ t h', S_makeSignLike_nonbase _ _ t h']
+
+/-- sample evaluations (tests): an enumeration with an 8-byte underlying type maps to `unsigned long` / `long`, the
+    smallest rank of that size on LP64 (not `unsigned long long`), cv-qualifiers are kept -/
+example : M.makeUnsigned (base .enumL ⟨true, false⟩) = .ok (base .ulong ⟨true, false⟩) := by decide
+example : M.makeUnsigned (base .enumULL CV.none) = .ok (base .ulong CV.none) := by decide
+example : M.makeSigned (base .enumULL ⟨false, true⟩) = .ok (base .long ⟨false, true⟩) := by decide
+example : M.makeSigned (base .ullong CV.none) = .ok (base .llong CV.none) := by decide
+
+/-- `underlying_type<T>`: no member `type` unless `T` is an enumeration; the fixed underlying type where there is one;
+    an integral type where the choice is the implementation's (`enum EU { … }`) -/
+theorem underlyingType_eq (t : CType) :
+    match Spec.underlyingType t with
+    | none => M.underlyingType t = none
+    | some none => ∃ u, M.underlyingType t = some u ∧ Spec.isIntegral u = true
+    | some (some u) => M.underlyingType t = some u := by
+  cases t with
+  | base b q => rcases q with ⟨_ | _, _ | _⟩ <;> cases b <;> first | rfl | exact ⟨_, rfl, rfl⟩
+  | _ => rfl
+
 /-! ### numeric_limits of the integer types -/
 
 /-- the members of an integer specialisation, as the header computes them, are the mathematical ones:
@@ -402,47 +444,136 @@ theorem digits10_eq_spec (d : Nat) (h : d < 103) : d * 3 / 10 = Spec.log10Floor 
 /-- the approximation 3/10 for log10 2 stops being exact at 103 value bits -/
 theorem digits10_counterexample : ¬ (2 ^ 103 < 10 ^ (103 * 3 / 10 + 1)) := by decide
 
-/-! ### ratio (partial: the reduction of `ratio<N,D>` to lowest terms itself has no theorem yet) -/
+/-! ### ratio ([ratio.ratio], [ratio.arithmetic], [ratio.comparison]) — after the three `fix:` commits
 
-/-- the ordering traits compare the exact rational numbers whenever the two cross products fit `intmax_t`
-    (and are then never ill-formed) -/
-theorem ratioLess_eq (a b : Rat) (h1 : fits (a.num * b.den) = true) (h2 : fits (b.num * a.den) = true) :
-    ratioLess a b = .ok (Spec.less (a.num, a.den) (b.num, b.den)) ∧
-    ratioLessEqual a b = .ok (!Spec.less (b.num, b.den) (a.num, a.den)) ∧
-    ratioGreater a b = .ok (Spec.less (b.num, b.den) (a.num, a.den)) ∧
-    ratioGreaterEqual a b = .ok (!Spec.less (a.num, a.den) (b.num, b.den)) := by
-  unfold ratioLess ratioLessEqual ratioGreater ratioGreaterEqual cross Spec.less
-  simp only [ck_of_fits h1, ck_of_fits h2, bind, Except.bind]
-  refine ⟨trivial, ?_, trivial, ?_⟩
-  · show Except.ok _ = Except.ok _
-    congr 1
-    by_cases h : b.num * a.den < a.num * b.den <;> simp [h, Int.not_le.mpr, Int.not_lt.mp]
-  · show Except.ok _ = Except.ok _
-    congr 1
-    by_cases h : a.num * b.den < b.num * a.den <;> simp [h, Int.not_le.mpr, Int.not_lt.mp]
+`Rat.Valid r`: `r` is what an instantiated `ratio<N, D>` is (`mkRatio_valid`): lowest terms, positive denominator, members
+in `[-INTMAX_MAX, INTMAX_MAX]`.  `Rat.ofQ q` is the specialisation `ratio<q.1, q.2>` whose members equal its template
+arguments.  `Spec.add/sub/mul/div` return the exact rational result in lowest terms, or an error iff a member of it is not
+representable (or the divisor is zero); `isErr` = "the instantiation is ill-formed". -/
 
-/-- non-vacuity: 1/3 < 1/2 -/
-example : fits ((1 : Int) * 2) = true ∧ fits ((1 : Int) * 3) = true := by decide
+/-- `Spec.reduce n d` is `n/d` in lowest terms with a positive denominator -/
+theorem reduce_lowest_terms (n d : Int) (hd : d ≠ 0) :
+    0 < (Spec.reduce n d).2 ∧ Int.gcd (Spec.reduce n d).1 (Spec.reduce n d).2 = 1 ∧
+    (Spec.reduce n d).1 * d = n * (Spec.reduce n d).2 := RA.reduce_spec n d hd
 
-/-- when the unreduced intermediates fit, `ratio_add<R1,R2>` is `ratio<n1·d2 + n2·d1, d1·d2>`
-    (partial: what is missing is `mkRatio n d = lowest terms of n/d`) -/
-theorem ratioAdd_eq_mkRatio_partial (a b : Rat) (h1 : fits (a.num * b.den) = true) (h2 : fits (b.num * a.den) = true)
-    (h3 : fits (a.num * b.den + b.num * a.den) = true) (h4 : fits (a.den * b.den) = true) :
-    ratioAdd a b = mkRatio (a.num * b.den + b.num * a.den) (a.den * b.den) := by
-  unfold ratioAdd; simp only [ck_of_fits h1, ck_of_fits h2, ck_of_fits h4, bind, Except.bind, ck_of_fits h3]
+/-- `ratio<n, d>`: the members are `n/d` in lowest terms with a positive denominator, for all template arguments the
+    standard admits (`d ≠ 0`, both in `[-INTMAX_MAX, INTMAX_MAX]`) -/
+theorem mkRatio_eq (n d : Int) (hn : Spec.argOk n = true) (hd : Spec.argOk d = true) (h0 : d ≠ 0) :
+    mkRatio n d = .ok ⟨(Spec.reduce n d).1, (Spec.reduce n d).2, n, d⟩ := RA.mkRatio_eq n d hn hd h0
+example : Spec.argOk (-6) = true ∧ Spec.argOk (-4) = true ∧ (-4 : Int) ≠ 0 ∧ Spec.reduce (-6) (-4) = (3, 2) := by decide
 
-theorem ratioMul_eq_mkRatio_partial (a b : Rat) (h1 : fits (a.num * b.num) = true) (h2 : fits (a.den * b.den) = true) :
-    ratioMul a b = mkRatio (a.num * b.num) (a.den * b.den) := by
-  unfold ratioMul; simp only [ck_of_fits h1, ck_of_fits h2, bind, Except.bind]
+/-- … and ill-formed for every other pair of `intmax_t` arguments (`ratio<N, 0>`, `INTMAX_MIN`) -/
+theorem mkRatio_illformed (n d : Int) (hn : inI n) (hd : inI d)
+    (h : ¬ (Spec.argOk n = true ∧ Spec.argOk d = true ∧ d ≠ 0)) : isErr (mkRatio n d) := RA.mkRatio_err n d hn hd h
+example : inI 1 ∧ inI 0 ∧ ¬ (Spec.argOk 1 = true ∧ Spec.argOk 0 = true ∧ (0 : Int) ≠ 0) := by decide
 
-example : fits ((1 : Int) * 3) = true ∧ fits ((2 : Int) * 3) = true := by decide
+/-- every instantiated `ratio` is `Valid` -/
+theorem mkRatio_valid (n d : Int) (r : Rat) (hn : inI n) (hd : inI d) (h : mkRatio n d = .ok r) :
+    r.Valid ∧ r.tn = n ∧ r.td = d ∧ r.q = Spec.reduce n d := RA.mkRatio_valid n d r hn hd h
 
-/-- the excluded class is inhabited: 1/2^62 + 1/2^62 = 1/2^61 is representable, tetl's `d1·d2` is not
-    (known finding F-C15-ratio-intermediate-overflow) -/
-theorem ratioAdd_overflow_counterexample :
-    (match ratioAdd ⟨1, 2 ^ 62, 1, 2 ^ 62⟩ ⟨1, 2 ^ 62, 1, 2 ^ 62⟩ with | .error _ => true | .ok _ => false) = true ∧
-    (match Spec.add (1, 2 ^ 62) (1, 2 ^ 62) with | .ok q => q == ((1 : Int), (2 : Int) ^ 61) | .error _ => false) = true := by decide
+/-- `R::type` names the specialisation whose template arguments are its members -/
+theorem ratioType_canonical (r : Rat) (h : r.Valid) :
+    r.type = .ok (Rat.ofQ r.q) ∧ (Rat.ofQ r.q).canonical = true :=
+  ⟨RA.type_eq r h, by simp [Rat.canonical, Rat.ofQ]⟩
+example : (⟨-3, 4, 6, -8⟩ : Rat).Valid := by decide
 
+/-- `ratio_add<R1, R2>` is the specialisation of the exact sum in lowest terms whenever that sum is representable:
+    no intermediate of `detail::ratio_add_impl` overflows -/
+theorem ratioAdd_eq (a b : Rat) (ha : a.Valid) (hb : b.Valid) (q : Spec.Q) (h : Spec.add a.q b.q = .ok q) :
+    ratioAdd a b = .ok (Rat.ofQ q) := RatioAsm.ratioAdd_ok a b ha hb q h
+/-- … and ill-formed whenever it is not -/
+theorem ratioAdd_illformed (a b : Rat) (ha : a.Valid) (hb : b.Valid) (h : isErr (Spec.add a.q b.q)) :
+    isErr (ratioAdd a b) := RatioAsm.ratioAdd_err a b ha hb h
+/-- the witness of the former finding F-C15-ratio-intermediate-overflow: 1/2^62 + 1/2^62 = 1/2^61 -/
+example : (⟨1, 2 ^ 62, 1, 2 ^ 62⟩ : Rat).Valid ∧ Spec.add ((1 : Int), (2 : Int) ^ 62) (1, 2 ^ 62) = .ok (1, 2 ^ 61) := by decide
+/-- non-vacuity of the ill-formed case: INTMAX_MAX + 1 -/
+example : isErr (Spec.add ((2 : Int) ^ 63 - 1, (1 : Int)) (1, 1)) := by decide
+
+theorem ratioSub_eq (a b : Rat) (ha : a.Valid) (hb : b.Valid) (q : Spec.Q) (h : Spec.sub a.q b.q = .ok q) :
+    ratioSub a b = .ok (Rat.ofQ q) := RatioAsm.ratioSub_ok a b ha hb q h
+theorem ratioSub_illformed (a b : Rat) (ha : a.Valid) (hb : b.Valid) (h : isErr (Spec.sub a.q b.q)) :
+    isErr (ratioSub a b) := RatioAsm.ratioSub_err a b ha hb h
+/-- a Bezout-type cancellation: 2^62/(2^31-1) - (2^62+2^31+1)/2^31 … sample hypothesis evaluation (a test) -/
+example : Spec.sub ((7 : Int), (12 : Int)) (1, 4) = .ok (1, 3) := by decide
+
+/-- `ratio_multiply<R1, R2>` (common factors cancelled first) -/
+theorem ratioMul_eq (a b : Rat) (ha : a.Valid) (hb : b.Valid) (q : Spec.Q) (h : Spec.mul a.q b.q = .ok q) :
+    ratioMul a b = .ok (Rat.ofQ q) := RA.ratioMul_ok a b ha hb q h
+theorem ratioMul_illformed (a b : Rat) (ha : a.Valid) (hb : b.Valid) (h : isErr (Spec.mul a.q b.q)) :
+    isErr (ratioMul a b) := RA.ratioMul_err a b ha hb h
+/-- 2^62 * 1/2^62 = 1 (the unreduced product 2^124 is not representable) -/
+example : (⟨2 ^ 62, 1, 2 ^ 62, 1⟩ : Rat).Valid ∧ Spec.mul ((2 : Int) ^ 62, (1 : Int)) (1, 2 ^ 62) = .ok (1, 1) := by decide
+
+/-- `ratio_divide<R1, R2>`; division by a zero ratio is ill-formed (`Spec.div` is an error then) -/
+theorem ratioDiv_eq (a b : Rat) (ha : a.Valid) (hb : b.Valid) (q : Spec.Q) (h : Spec.div a.q b.q = .ok q) :
+    ratioDiv a b = .ok (Rat.ofQ q) := RA.ratioDiv_ok a b ha hb q h
+theorem ratioDiv_illformed (a b : Rat) (ha : a.Valid) (hb : b.Valid) (h : isErr (Spec.div a.q b.q)) :
+    isErr (ratioDiv a b) := RA.ratioDiv_err a b ha hb h
+example : isErr (Spec.div ((1 : Int), (2 : Int)) (0, 1)) ∧ Spec.div ((1 : Int), (2 : Int)) (-3, 4) = .ok (-2, 3) := by decide
+
+/-- `ratio_equal` (member-wise comparison) is equality of the rational numbers -/
+theorem ratioEqual_eq (a b : Rat) (ha : a.Valid) (hb : b.Valid) : ratioEqual a b = Spec.equal a.q b.q :=
+  RA.ratioEqual_eq a b ha hb
+theorem ratioNotEqual_eq (a b : Rat) (ha : a.Valid) (hb : b.Valid) : ratioNotEqual a b = !Spec.equal a.q b.q := by
+  unfold ratioNotEqual; rw [RA.ratioEqual_eq a b ha hb]
+
+/-- the ordering traits compare the exact rational numbers for all operands (`detail::ratio_less_impl` forms no product,
+    terminates within `R1::den + 1` iterations and never overflows) -/
+theorem ratioLess_eq (a b : Rat) (ha : a.Valid) (hb : b.Valid) : ratioLess a b = .ok (Spec.less a.q b.q) :=
+  RC.ratioLess_eq a b ⟨ha.1, ha.2.2⟩ ⟨hb.1, hb.2.2⟩
+theorem ratioLessEqual_eq (a b : Rat) (ha : a.Valid) (hb : b.Valid) : ratioLessEqual a b = .ok (!Spec.less b.q a.q) :=
+  RC.ratioLessEqual_eq a b ⟨ha.1, ha.2.2⟩ ⟨hb.1, hb.2.2⟩
+theorem ratioGreater_eq (a b : Rat) (ha : a.Valid) (hb : b.Valid) : ratioGreater a b = .ok (Spec.less b.q a.q) :=
+  RC.ratioGreater_eq a b ⟨ha.1, ha.2.2⟩ ⟨hb.1, hb.2.2⟩
+theorem ratioGreaterEqual_eq (a b : Rat) (ha : a.Valid) (hb : b.Valid) : ratioGreaterEqual a b = .ok (!Spec.less a.q b.q) :=
+  RC.ratioGreaterEqual_eq a b ⟨ha.1, ha.2.2⟩ ⟨hb.1, hb.2.2⟩
+/-- the witness of the former wrap-around: 2^62 < 1/2^62 is false -/
+example : (⟨1, 2 ^ 62, 1, 2 ^ 62⟩ : Rat).Valid ∧ Spec.less ((2 : Int) ^ 62, (1 : Int)) (1, 2 ^ 62) = false := by decide
+
+/-! #### the same statements against Mathlib's rational numbers `ℚ` (a reference that shares nothing with the model)
+
+`RQ.rval r = r.num / r.den : ℚ`; `RQ.Representable x`: numerator and denominator of the lowest-terms form of `x`
+(`x.num`, `x.den`, Mathlib's normal form: coprime, positive denominator) lie in `[-INTMAX_MAX, INTMAX_MAX]`. -/
+
+/-- `ratio<n, d>` is a valid specialisation (lowest terms, positive denominator: `mkRatio_valid`) of value `n / d` -/
+theorem mkRatio_rat (n d : Int) (hn : Spec.argOk n = true) (hd : Spec.argOk d = true) (h0 : d ≠ 0) :
+    ∃ r, mkRatio n d = .ok r ∧ r.Valid ∧ RQ.rval r = (n : ℚ) / (d : ℚ) := RQ.mkRatio_rat n d hn hd h0
+/-- the members of a valid specialisation are `num` and `den` of its value in `ℚ` -/
+theorem valid_num_den (r : Rat) (h : r.Valid) : (RQ.rval r).num = r.num ∧ ((RQ.rval r).den : Int) = r.den :=
+  RQ.valid_num_den r h
+
+/-- `ratio_add`: exact addition in `ℚ`, the canonical specialisation in lowest terms, exactly when the sum is representable;
+    ill-formed otherwise -/
+theorem ratioAdd_rat (a b : Rat) (ha : a.Valid) (hb : b.Valid) :
+    (RQ.Representable (RQ.rval a + RQ.rval b) →
+      ∃ r, ratioAdd a b = .ok r ∧ r.Valid ∧ r.canonical = true ∧ RQ.rval r = RQ.rval a + RQ.rval b) ∧
+    (¬ RQ.Representable (RQ.rval a + RQ.rval b) → isErr (ratioAdd a b)) := RQ.ratioAdd_rat a b ha hb
+theorem ratioSub_rat (a b : Rat) (ha : a.Valid) (hb : b.Valid) :
+    (RQ.Representable (RQ.rval a - RQ.rval b) →
+      ∃ r, ratioSub a b = .ok r ∧ r.Valid ∧ r.canonical = true ∧ RQ.rval r = RQ.rval a - RQ.rval b) ∧
+    (¬ RQ.Representable (RQ.rval a - RQ.rval b) → isErr (ratioSub a b)) := RQ.ratioSub_rat a b ha hb
+theorem ratioMul_rat (a b : Rat) (ha : a.Valid) (hb : b.Valid) :
+    (RQ.Representable (RQ.rval a * RQ.rval b) →
+      ∃ r, ratioMul a b = .ok r ∧ r.Valid ∧ r.canonical = true ∧ RQ.rval r = RQ.rval a * RQ.rval b) ∧
+    (¬ RQ.Representable (RQ.rval a * RQ.rval b) → isErr (ratioMul a b)) := RQ.ratioMul_rat a b ha hb
+theorem ratioDiv_rat (a b : Rat) (ha : a.Valid) (hb : b.Valid) :
+    (b.num ≠ 0 → RQ.Representable (RQ.rval a / RQ.rval b) →
+      ∃ r, ratioDiv a b = .ok r ∧ r.Valid ∧ r.canonical = true ∧ RQ.rval r = RQ.rval a / RQ.rval b) ∧
+    (b.num = 0 ∨ ¬ RQ.Representable (RQ.rval a / RQ.rval b) → isErr (ratioDiv a b)) := RQ.ratioDiv_rat a b ha hb
+
+/-- the six comparison traits are the comparisons of `ℚ`, for all valid operands -/
+theorem ratioEqual_rat (a b : Rat) (ha : a.Valid) (hb : b.Valid) : ratioEqual a b = decide (RQ.rval a = RQ.rval b) :=
+  RQ.ratioEqual_rat a b ha hb
+theorem ratioNotEqual_rat (a b : Rat) (ha : a.Valid) (hb : b.Valid) : ratioNotEqual a b = decide (RQ.rval a ≠ RQ.rval b) :=
+  RQ.ratioNotEqual_rat a b ha hb
+theorem ratioLess_rat (a b : Rat) (ha : a.Valid) (hb : b.Valid) : ratioLess a b = .ok (decide (RQ.rval a < RQ.rval b)) :=
+  RQ.ratioLess_rat a b ha hb
+theorem ratioLessEqual_rat (a b : Rat) (ha : a.Valid) (hb : b.Valid) :
+    ratioLessEqual a b = .ok (decide (RQ.rval a ≤ RQ.rval b)) := RQ.ratioLessEqual_rat a b ha hb
+theorem ratioGreater_rat (a b : Rat) (ha : a.Valid) (hb : b.Valid) :
+    ratioGreater a b = .ok (decide (RQ.rval a > RQ.rval b)) := RQ.ratioGreater_rat a b ha hb
+theorem ratioGreaterEqual_rat (a b : Rat) (ha : a.Valid) (hb : b.Valid) :
+    ratioGreaterEqual a b = .ok (decide (RQ.rval a ≥ RQ.rval b)) := RQ.ratioGreaterEqual_rat a b ha hb
 
 /-! ### non-vacuity: the hypotheses hold on non-trivial values -/
 
